@@ -9,6 +9,7 @@ import (
 	"regexp"
 	"sort"
 	"sync"
+	"sync/atomic"
 	"time"
 )
 
@@ -112,6 +113,17 @@ func (c *Ctx) Assume(s string) { c.assumptions = append(c.assumptions, s) }
 // Fail records a failing case. sig is the failure signature (failure mode + shape)
 // that known findings are matched against; anything not listed is a violation.
 func (c *Ctx) Fail(sig, msg string, cas interface{}) {
+	c.failLocked(sig, msg, cas)
+	if atomic.LoadInt32(&runaway) == 1 {
+		// a call that never returned is eating the memory: report what is known and leave now
+		os.Exit(c.finish(nil))
+	}
+}
+
+// runaway is set by the watchdog when a call that did not return keeps allocating.
+var runaway int32
+
+func (c *Ctx) failLocked(sig, msg string, cas interface{}) {
 	c.mu.Lock()
 	defer c.mu.Unlock()
 	if f := c.findings.match(c.ID, sig); f != nil {
